@@ -109,6 +109,10 @@ def cases(tier):
                     yield ('src', kind, fm, ci, i, min(i + 12, nt))
     for i in range(0, nt, 6):
         yield ('cli', i, min(i + 6, nt))
+    # texts of MANY short lines (the bounded readers behind `equals` count characters line by line): identical texts from different kinds of source
+    for n in (99, 101, 103, 150, 400, 1200):
+        yield ('cli-one', ''.join('l%d\n' % (i % 7) for i in range(n)))
+        yield ('cli-one', 'x\n' * n + 'last')
     # unequal texts that are easy to take for equal: same length / same file times / one a prefix of the other, lengths around the
     # read-ahead of `equals` (100) and the memory buffer
     for n in NEQ_SIZES:
